@@ -24,6 +24,8 @@ func main() {
 	vdir := flag.String("verif", "/verif", "verif root (evidence, known findings)")
 	list := flag.Bool("list", false, "list properties with checks")
 	discover := flag.String("discover", "", "print guard signatures of functions whose key matches this regexp (tool for building tables)")
+	lint := flag.String("lint", "", "run one lint (L1, L2, L7, L17) over the whole library and print its hits (debug tool)")
+	setters := flag.String("setters", "", "list setter-like methods (key regexp) that do not fully define their receiver (debug tool)")
 	effects := flag.String("effects", "", "print mod/ref/hazard summaries of functions whose key matches this regexp (debug tool)")
 	flag.Parse()
 	// measured on this image: kernel-side page-fault contention makes 16 Ps slower than 8.
@@ -35,6 +37,14 @@ func main() {
 	}
 	repoDir = *repo
 	verifDir = *vdir
+	if *lint != "" {
+		runLint(*lint)
+		return
+	}
+	if *setters != "" {
+		runSetters(*setters)
+		return
+	}
 	if *effects != "" {
 		runEffects(*effects)
 		return
